@@ -55,20 +55,29 @@ def cant_delete(r):
 class ACtx:
     """rules applicable at one level: list of (gen_name, rule) local, and inherited globals"""
 
-    def __init__(self, local, globs=(), norm=None):
+    def __init__(self, local, globs=(), norm=None, rev=None):
         self.local = [(g, r) for (g, r) in local if not r.get("glob")]
         self.globs = [(g, r) for (g, r) in local if r.get("glob")] + list(globs)
         self.norm = norm  # vendor-specific row normalisation (juniper: the 'inactive: ' marker is not part of the line)
+        self.rev = rev    # the vendor's negation word, when negated lines ('undo x') are part of the domain: such a line is covered by
+        #                   the rule that covers 'x' (through the rule's negated form); it never contributes children rules
 
     @classmethod
-    def top(cls, named_acls, norm=None):
-        return cls([(name, r) for name, rules in named_acls for r in rules], norm=norm)
+    def top(cls, named_acls, norm=None, rev=None):
+        return cls([(name, r) for name, rules in named_acls for r in rules], norm=norm, rev=rev)
+
+    def _hit(self, r, row):
+        if ref_match(r["toks"], row, bool(r.get("icase"))) is not None:
+            return True
+        if self.rev and row.startswith(self.rev + " ") and r["toks"][0] != self.rev:
+            return ref_match(r["toks"], row[len(self.rev) + 1:], bool(r.get("icase"))) is not None
+        return False
 
     def cover(self, row):
         if self.norm:
             row = self.norm(row)
-        m = [(g, r) for (g, r) in self.local if ref_match(r["toks"], row, bool(r.get("icase"))) is not None]
-        gm = [(g, r) for (g, r) in self.globs if ref_match(r["toks"], row, bool(r.get("icase"))) is not None]
+        m = [(g, r) for (g, r) in self.local if self._hit(r, row)]
+        gm = [(g, r) for (g, r) in self.globs if self._hit(r, row)]
         return m, gm
 
     def covered(self, row):
@@ -77,10 +86,12 @@ class ACtx:
 
     def child(self, row):
         m, gm = self.cover(row)
+        nrow = self.norm(row) if self.norm else row
+        m = [(g, r) for (g, r) in m if ref_match(r["toks"], nrow, bool(r.get("icase"))) is not None]   # direct matches only
         if not m:
-            return ACtx([], self.globs, self.norm)
+            return ACtx([], self.globs, self.norm, self.rev)
         ch = [(g, c) for (g, r) in m for c in r["children"]]
-        return ACtx(ch, self.globs, self.norm)
+        return ACtx(ch, self.globs, self.norm, self.rev)
 
     def deletable_generators(self, row):
         """names of generators having a deletable rule that matches the row"""
